@@ -2,7 +2,7 @@
    Model: Reduce.fxp_sum / fxp_cumsum / fxp_prod / fxp_dot (growth rule, int64 accumulation,
    Fxp(val, raw=True)).  max, min, sort, clip, transpose, diagonal keep the operand's format and
    only select / rearrange codes (checked by the correspondence run). *)
-From Coq Require Import ZArith List Bool.
+From Coq Require Import ZArith List Bool Lia.
 From FxpVerif Require Import Spec SpecArith NP Store ProofsCore Arith Reduce ProofsReduce.
 Import ListNotations.
 Open Scope Z_scope.
@@ -56,8 +56,18 @@ Theorem C15_dot_exact : forall fx fy xs ys r o, 1 <= nw fx -> 1 <= nw fy -> leng
 Proof. exact fxp_dot_exact. Qed.
 Print Assumptions C15_dot_exact.
 
-(* PARTIAL: cumprod and trace are modelled by the same accumulation (scan / sum of the diagonal)
-   but are not stated as theorems; they are covered by the correspondence run. *)
+(* trace: the sum of the diagonal, the word growing by ceil(log2(number of diagonal elements)):
+   functions.trace is _trace_raw = np.trace(x.val) with that growth, i.e. the model fxp_sum on
+   the diagonal with total := its length *)
+Theorem C15_trace_exact : forall f d r o, 1 <= nw f -> (1 <= length d)%nat ->
+  clog2 (Z.of_nat (length d)) + nw f <= 62 -> Forall (in_range f) d ->
+  exists w, fxp_sum f (Z.of_nat (length d)) d r o = Ok (sum_fmt f (Z.of_nat (length d)), w) /\
+    w_codes w = [zsum d] /\ w_ovf w = false /\ w_unf w = false.
+Proof. intros f d r o Hw Hn H62 Hr. apply fxp_sum_exact; try assumption; lia. Qed.
+Print Assumptions C15_trace_exact.
+
+(* PARTIAL: cumprod (running products rescaled to the common fraction length) is not stated
+   as a theorem; it is covered by the correspondence run. *)
 Example C15_nonvacuous :
   let f := {| sg := true; nw := 4; nf := 1 |} in
   fxp_sum f 5 [-8; -8; -8; -8; -8] Trunc Saturate = Ok ({| sg := true; nw := 7; nf := 1 |}, {| w_codes := [-40]; w_ovf := false; w_unf := false; w_inacc := false |}) /\
